@@ -545,6 +545,12 @@ func getDefinedArgT(
 	definedArg string,
 ) *base.T {
 
+	// a keyword of a configured declaration: what THIS declaration says (an
+	// overload may declare the same keyword with another type or default)
+	if keywordT := methodT.GetKeywordT(definedArg); keywordT != nil {
+		return keywordT
+	}
+
 	definedArgT :=
 		base.GetValueT(
 			methodT.GetFrame(),
